@@ -298,6 +298,11 @@ def r2_positional_picks(ctx):
         for node, S, form in _picks(f):
             n += 1
             proof = _singleton_proof(prog, f, node, S, pm)
+            if proof is None and isinstance(S, astx.LCOMP) and len(S.generators) == 1 and not S.generators[0].ifs:
+                # the k-th element of an element-wise map of an ORDERED source is the map of its k-th element
+                src = _origin(prog, f, S.generators[0].iter, at=node)
+                if src is not None:
+                    proof = f"position in a sequence whose order comes from: {src}"
             if proof is None:
                 # used only as key into the scores that define the equal-score class
                 st = astx.stmt_of(node, pm)
